@@ -8,6 +8,7 @@ The model's breadth-first `markLoop` is fuel-bounded; instead of proving the bou
 relabelling that every edge joins equal ids (`checkSame`) and, after the relabelling that follows a vertex removal, that
 the old id is gone (`checkNone`); a failed check sets `Roadmap.stale`.  Everything here is stated for `stale = false`
 (the driver prints the flag; it is false on every lock-step run).  Arithmetic-free.
+`Proofs/LazyPRMFuel.lean` proves the bound sufficient, so `checkSame` never fires; `checkNone` is what is left.
 -/
 namespace OmplModel.LazyPRM
 
